@@ -743,6 +743,17 @@ func pow2(n int) Term { return BigLit(new(big.Int).Lsh(big.NewInt(1), uint(n))) 
 func (u *Unit) wrapTo(x Term, t types.Type, exactIfSmall bool) Term {
 	w := bitWidth(t)
 	m := pow2(w)
+	if xv, ok := x.intVal(); ok {
+		mv, _ := m.intVal()
+		r := new(big.Int).Mod(xv, mv)
+		if !isUnsigned(t) {
+			h := new(big.Int).Rsh(mv, 1)
+			if r.Cmp(h) >= 0 {
+				r.Sub(r, mv)
+			}
+		}
+		return BigLit(r)
+	}
 	if isUnsigned(t) {
 		return App("mod", SInt, x, m)
 	}
